@@ -186,7 +186,7 @@ Inductive hres :=
 | HErr.
 
 Definition http_reply (body : bytes) : hres :=
-  match bdecode body with
+  match bdecode_lim body with
   | BOk (BDict kvs) _ _ =>
     match fold_opt hfield hraw_zero kvs with
     | None => HErr
